@@ -360,6 +360,13 @@ def run(ctx):
         "the crate by gpos-value-worked / gpos-pair-flags (hooks gpos::pair_records_apply_to_pos, gpos::apply_subtable_flags) and "
         "the regenerated probe table behind C03_gen_value_worked; SinglePos needs no flag (one glyph); MarkBasePos, CursivePos and "
         "the kern / kerx machines are not modelled here (C07 models their arithmetic); through shape(): break-safety-gposdev",
+        "break-safety-syllabic (generated fonts for the Indic / Khmer / Myanmar / Universal shapers, tools/syllabic.py): the search "
+        "domain leaves out three font traits that lead to behaviour shared with HarfBuzz and not yet registered as finding classes — "
+        "isol / init / medi / fina features under the Universal shaper (setup_topographical_masks flags nothing), ligatures whose first "
+        "glyph is a mark (a reordered pre-base vowel sign ligated with its base loses UNSAFE_TO_BREAK in merge_clusters) and letters "
+        "with a canonical decomposition (the normalizer recomposes only when some cluster has a mark: all_simple); each is generated "
+        "again, and attributed, as soon as known_findings.json has the class use-topographical / reordered-ligature / "
+        "normalizer-all-simple (coverage key break_syllabic_domain says which are on)",
         "that every shaping step which makes two clusters interdependent calls unsafe_to_break over a span covering what it "
         "inspected (the ~40 call sites) is not proved; it is searched by the break-safety verifier through shape() "
         "(partial, as DESIGN.md §5 C03 says); OpenType and AAT fonts are separate streams",
